@@ -5,7 +5,7 @@ import shutil
 import subprocess
 import tempfile
 
-from lib.facts import norm, direct_place, const_int, place_fields
+from lib.facts import norm, direct_place, const_int, place_fields, nophi
 from lib import tables, extract
 from .common import Recorder
 
@@ -250,7 +250,7 @@ def r01_2(ctx, prog, crate, rec):
                 val = b.prov.op_src(c.args[1])
                 ctx.check(nx and any(s.kind == "call" and s.b == nx[0].bb for s in dst), "R01.2", [b.path, lbl, "input-into-current-slot"],
                           "the generated input is not written into the slot being visited", c.line())
-                ctx.check(any(s.kind == "call" and rec.role(b.call_at(s.b)) == "gen_input" for s in val if s.kind == "call" and b.call_at(s.b)), "R01.2",
+                ctx.check(any(s.kind == "call" and rec.role(b.call_at(s.b)) == "gen_input" for s in val if s.kind == "call" and b.call_at(s.b)) and nophi(val), "R01.2",
                           [b.path, lbl, "written-value-is-generated"], "the value written is not gen_input()'s result", c.line())
                 ctx.check(b.once_per_iteration(c.bb, gl[0]), "R01.2", [b.path, lbl, "input-write-once-per-iteration"], "not once per iteration", c.line())
                 if lbl == "slots":
